@@ -549,3 +549,52 @@ Definition check_hyps (m n : nat) (A : list (list Q)) (b : list Q) (ge gx : gdes
   | Some ce, Some cx => hyps_ok m n (qmat A) (qvec b) ce cx
   | _, _ => false
   end.
+
+(* ------------------------------------------------------------------------------------------------
+   positive semi-definiteness as a checked certificate: symmetric elimination without pivoting gives an upper factor U
+   with P = U^T diag(1/u_kk) U; the model accepts only after checking that identity exactly and u_kk > 0
+   ------------------------------------------------------------------------------------------------ *)
+Fixpoint elim_sym (fuel : nat) (M : qm) : option qm :=
+  match fuel with
+  | O => Some []
+  | S f =>
+    match M with
+    | [] => Some []
+    | r :: rest =>
+      match r with
+      | [] => None
+      | a :: _ =>
+        if Qle_bool (this a) 0 then None else
+        let sub := map (fun ri => tl (qvsub ri (qvscale (hd 0 ri / a) r))) rest in
+        match elim_sym f sub with
+        | Some U' => Some (r :: map (cons 0) U')
+        | None => None
+        end
+      end
+    end
+  end.
+Definition scale_rows (ws : qv) (U : qm) : qm := map (fun p => qvscale (fst p) (snd p)) (combine ws U).
+Definition diag_of (U : qm) : qv := map (fun p => nth (fst p) (snd p) 0) (combine (seq 0 (length U)) U).
+Definition all_pos (ws : qv) : bool := forallb (fun w => negb (Qle_bool (this w) 0)) ws.
+(* certificate of positive semi-definiteness: P = U^T diag(ws) U with ws > 0, checked exactly *)
+Definition psd_cert (n : nat) (P : qm) : bool :=
+  match elim_sym n P with
+  | Some U => let ws := map (fun d => / d) (diag_of U) in
+              all_pos ws && Nat.eqb (length U) n && forallb (fun r => Nat.eqb (length r) n) U
+              && qcll_eqb (qmatmul n (qtranspose n U) (scale_rows ws U)) P
+  | None => false
+  end.
+
+
+(* every hypothesis of C15_closed_form_is_posterior_mode's maximality clause, decided on the instance that runs *)
+Definition mode_hyps_ok (m n : nat) (A : qm) (b : qv) (ce cx : covform) : bool :=
+  hyps_ok m n A b ce cx &&
+  match qinv (dense_of true m ce), qinv (dense_of true n cx) with
+  | Some Pe, Some Px => qcll_eqb (qtranspose n Px) Px && psd_cert m Pe && psd_cert n Px
+  | _, _ => false
+  end.
+Definition check_mode_hyps (m n : nat) (A : list (list Q)) (b : list Q) (ge gx : gdesc) : bool :=
+  match gd_cov m ge, gd_cov n gx with
+  | Some ce, Some cx => mode_hyps_ok m n (qmat A) (qvec b) ce cx
+  | _, _ => false
+  end.
